@@ -6,7 +6,7 @@ import ast
 import json
 
 from ..cfg import CFG, typestate, witness, calls_at, path_summaries
-from ..loader import AnalysisError, Repo, body_nodoc, dotted, norm, walk_no_nested, enclosing, qualname, strip_cast, parent
+from ..loader import expand_aliases, AnalysisError, Repo, body_nodoc, dotted, norm, walk_no_nested, enclosing, qualname, strip_cast, parent
 from ..lints import no_swallow
 from ..report import Report, VERIF
 
@@ -165,12 +165,13 @@ def run(repo: Repo, rep: Report, tier: str) -> None:
     rep.need(len(calling) >= 1, f"{fq}: calling AE title test vanished")
     t = norm(calling[0].test)
     auth = [s for s in walk_no_nested(fn) if isinstance(s, ast.Assign) and norm(s.targets[0]) == "authorised_aet"]
-    ok = t == "self.assoc.ae.require_calling_aet and assoc_rq.calling_ae_title not in authorised_aet" and len(auth) == 1 and norm(auth[0].value) == "[s.strip() for s in self.assoc.ae.require_calling_aet]"
+    _X = lambda x_: expand_aliases(acse.classes.get("ACSE"), x_)  # noqa: E731
+    ok = _X(t) == _X("self.assoc.ae.require_calling_aet and assoc_rq.calling_ae_title not in authorised_aet") and len(auth) == 1 and _X(norm(auth[0].value)) == _X("[s.strip() for s in self.assoc.ae.require_calling_aet]")
     rep.check(ok, "policy-tests", fq, calling[0], "reject iff the required-calling list is non-empty and the calling title is not in the stripped list", mod=acse)
     rep.check(triple_in(calling[0]) == (1, 1, 3), "policy-tests", fq, f"calling title not recognised -> {triple_in(calling[0])}", "documented: rejected-permanent, service-user, calling AE title not recognised (1, 1, 3)", mod=acse, node=calling[0])
     called = sorted([i for t, i in ifs.items() if "called_ae_title" in t], key=lambda i: i.lineno)
     rep.need(len(called) >= 1, f"{fq}: called AE title test vanished")
-    ok = norm(called[0].test) == "self.assoc.ae.require_called_aet and assoc_rq.called_ae_title != self.acceptor.ae_title.strip()"
+    ok = _X(norm(called[0].test)) == _X("self.assoc.ae.require_called_aet and assoc_rq.called_ae_title != self.acceptor.ae_title.strip()")
     rep.check(ok, "policy-tests", fq, called[0], "reject iff the check is enabled and the called title differs from the acceptor's own (stripped) title", mod=acse)
     rep.check(triple_in(called[0]) == (1, 1, 7), "policy-tests", fq, f"called title not recognised -> {triple_in(called[0])}", "documented: rejected-permanent, service-user, called AE title not recognised (1, 1, 7)", mod=acse, node=called[0])
     ident = [i for t, i in ifs.items() if t == "not is_valid"]
